@@ -7,8 +7,9 @@
     in success or an ordinary rejection."
 
     Only statements (proved in [Params/Proofs.v]), each with [Print Assumptions].  The model
-    ([Params/Model.v]) follows the FIXED code (repo commits 8ab26ad farm tax rate, de3d691 coinswap
-    fee coin, 46986d3 token fee coin).  A history is an arbitrary list of [pstep]s: attempts to
+    ([Params/Model.v]) follows the FIXED code (repo commits "fix: farm Params.Validate also validates
+    the tax rate", "fix: coinswap Params.Validate rejects a pool creation fee that is not a valid coin",
+    "fix: token Params.Validate rejects an issue-token base fee that is not a valid coin").  A history is an arbitrary list of [pstep]s: attempts to
     update a module's parameters (via = 0 message of the authority, 1 message of anybody else,
     2 InitGenesis) and operations of the five modules, which read the STORED sets.
 
